@@ -174,6 +174,21 @@ func scriptError(kind string) error {
 		return (*res.Error)(nil)
 	case "wrapped-reserr":
 		return fmt.Errorf("wrapped: %w", errRes)
+	// the library's exported predefined error values, used as they are
+	case "predef-invalidquery":
+		return res.ErrInvalidQuery
+	case "predef-notfound":
+		return res.ErrNotFound
+	case "predef-invalidparams":
+		return res.ErrInvalidParams
+	case "predef-accessdenied":
+		return res.ErrAccessDenied
+	case "predef-methodnotfound":
+		return res.ErrMethodNotFound
+	case "predef-timeout":
+		return res.ErrTimeout
+	case "predef-internal":
+		return res.ErrInternalError
 	}
 	return errors.New(kind)
 }
@@ -408,6 +423,8 @@ func scriptEvent(rs res.Resource, a act) {
 		switch a.V {
 		case "reserved-change", "reserved-delete", "reserved-add", "reserved-remove", "reserved-patch", "reserved-reaccess", "reserved-unsubscribe", "reserved-query":
 			rs.Event(a.V[len("reserved-"):], nil)
+		case "reserved-query-payload":
+			rs.Event("query", map[string]interface{}{"x": 1})
 		case "invalid-dot":
 			rs.Event("a.b", nil)
 		case "invalid-empty":
@@ -483,7 +500,9 @@ func otherAlphabet(rtype string) []act {
 		{Op: "event", K: "add", V: "ok"}, {Op: "event", K: "add", V: "neg"},
 		{Op: "event", K: "remove", V: "ok"},
 		{Op: "event", K: "create", V: "ok"}, {Op: "event", K: "delete"}, {Op: "event", K: "reaccess"}, {Op: "event", K: "reset"},
-		{Op: "event", K: "custom", V: "ok"}, {Op: "event", K: "custom", V: "reserved-change"}, {Op: "event", K: "custom", V: "invalid-dot"}, {Op: "event", K: "custom", V: "unmarshalable"},
+		{Op: "event", K: "custom", V: "ok"}, {Op: "event", K: "custom", V: "reserved-change"}, {Op: "event", K: "custom", V: "reserved-query"}, {Op: "event", K: "custom", V: "reserved-query-payload"}, {Op: "event", K: "custom", V: "reserved-delete"},
+		{Op: "event", K: "custom", V: "reserved-add"}, {Op: "event", K: "custom", V: "reserved-remove"}, {Op: "event", K: "custom", V: "reserved-patch"}, {Op: "event", K: "custom", V: "reserved-reaccess"}, {Op: "event", K: "custom", V: "reserved-unsubscribe"},
+		{Op: "event", K: "custom", V: "invalid-dot"}, {Op: "event", K: "custom", V: "unmarshalable"},
 		{Op: "panic", K: "reserr"}, {Op: "panic", K: "err"}, {Op: "panic", K: "str"}, {Op: "panic", K: "int"}, {Op: "panic", K: "runtime"},
 		{Op: "panic", K: "reserr-baddata"}, {Op: "panic", K: "nil-typed-err"}, {Op: "panic", K: "reserr-nil"}, {Op: "panic", K: "untyped-nil"},
 	}
@@ -509,6 +528,20 @@ func getScriptAlphabet() []script {
 		{},
 		{{Op: "reply", K: "model", V: "map"}, {Op: "reply", K: "model", V: "map"}},
 		{{Op: "reply", K: "model", V: "chan"}},
+		// what a get handler may do when it is run for Value(): ask for the value itself
+		// (documented to panic), extend a timeout, answer with a query model, an invalid-query
+		// or a nil *res.Error, panic with nil values
+		{{Op: "value"}},
+		{{Op: "value", K: "require"}},
+		{{Op: "timeout"}, {Op: "reply", K: "model", V: "map"}},
+		{{Op: "reply", K: "invalidquery", V: ""}},
+		{{Op: "reply", K: "invalidquery", V: "bad query"}},
+		{{Op: "reply", K: "error", V: "reserr-nil"}},
+		{{Op: "reply", K: "querymodel", V: "map"}},
+		{{Op: "panic", K: "reserr-nil"}},
+		{{Op: "panic", K: "untyped-nil"}},
+		{{Op: "panic", K: "int"}},
+		{{Op: "reply", K: "error", V: "reserr-nomsg"}},
 	}
 }
 
